@@ -1,18 +1,18 @@
 SPECIFICATION Spec
 CONSTANTS
   Threads = {t1}
-  MaxPush = 20
-  MaxPop = 20
-  MaxUnblock = 1
+  MaxPush = 4
+  MaxPop = 4
+  MaxUnblock = 2
   MaxSize = 0
-  Void = TRUE
-  AllowDestroy = FALSE
+  Void = FALSE
+  AllowDestroy = TRUE
   AllowThrow = FALSE
   Obj = FALSE
-  Forms = {"zero"}
-  SingleItem = FALSE
+  Forms = {"one"}
+  SingleItem = TRUE
   SingleWaiter = FALSE
-  MaxRefuse = 0
+  MaxRefuse = 2
 INVARIANTS TypeOK NeverBothNonEmpty SlotCapacity ExactlyOnceDelivery ValueIntact DeliveredInOrder ItemsSorted WaitersFIFO NoLostWaiter DestroyCancels
 PROPERTY AllResolved
 CHECK_DEADLOCK FALSE
